@@ -65,7 +65,7 @@ def run_cases(chk, binp, cases, pf_ok, pf):
         "evaluations": sum(len(j["runs"]) for j in J), "distinct_nontrivial": len(loaded),
         "rule": "every specification fixture of /repo (JSON and YAML), grammar-generated specifications, and 0..3 structural edits of them "
                 "(delete / retype to every JSON kind incl. null / rename to names with dots, empty names / transplant a sub-tree / "
-                "references to nowhere or with siblings), graphs of allOf ancestors (chains, diamonds, cycles, the reference wrapped in inline allOf members), each validated in both continue-on-errors modes under recover; "
+                "references to nowhere or with siblings), graphs of allOf ancestors (chains, diamonds, cycles, the reference wrapped in inline allOf members), body parameters named after a response of their operation or after a word the walkers append to paths, each validated in both continue-on-errors modes under recover; "
                 "non-trivial = the document loads; distinct by document",
         "samples": [J[0]["case"], {k: v for k, v in J[-1]["case"].items() if k != "doc"}],
         "outcome_split": dist, "documents_by_origin": origins, "visited_heuristic_cases": len(vrecs), "visited_heuristic_mismatches": len(vbad),
@@ -84,6 +84,11 @@ def run(chk):
     for _ in range(40 if chk.tier == "quick" else 3000):
         d, cyc = G.ancestry_doc(rng)
         cases.append({"doc": d, "origin": "allOf ancestry graph" + (" with a cycle" if cyc else "")})
+    base = [c["doc"] for c in cases if c.get("origin") == "grammar"]
+    for _ in range(60 if chk.tier == "quick" else 3000):
+        d, e = G.collide_names(rng.choice(base), rng)
+        if e != "none":
+            cases.append({"doc": d, "origin": "name collision", "edits": [e]})
     import os
     cdir = os.path.join(C.VERIF, "corpus", "C07")
     extra = []
